@@ -54,6 +54,17 @@ Theorem C17_set_length_exact : forall E (s : st E) n fl, 0 <= n ->
 Proof. exact id_set_length_exact. Qed.
 Print Assumptions C17_set_length_exact.
 
+(** ... is this list operation (the abstract list model) ... *)
+Theorem C17_set_length_events : forall E (s : st E) n fl, 0 <= n ->
+  events (set_length E no_fix s n fl) =
+    if len s <? n then
+      if fl then repeat (pad s) (Z.to_nat (n - len s)) ++ events s
+      else events s ++ repeat (pad s) (Z.to_nat (n - len s))
+    else if fl then skipn (Z.to_nat (len s - n)) (events s)
+         else firstn (Z.to_nat n) (events s).
+Proof. exact id_set_length_events. Qed.
+Print Assumptions C17_set_length_events.
+
 (** ... keeps the event at every step common to the old and the new range ... *)
 Theorem C17_set_length_keeps : forall E (s : st E) n fl, Inv s -> 0 <= n ->
   let s' := set_length E no_fix s n fl in
@@ -274,6 +285,15 @@ Theorem C17_performance_trim_steps_exact : forall l num, 0 <= num <= Perf.sum_sh
   Perf.sum_shifts (Perf.trim_steps l num) = Perf.sum_shifts l - num.
 Proof. exact PerfP.trim_steps_sum. Qed.
 Print Assumptions C17_performance_trim_steps_exact.
+
+(** ... keeping a prefix of the events, possibly followed by a shortened
+    version of the time shift that came next *)
+Theorem C17_performance_trim_steps_shape : forall l num, exists pre post, l = pre ++ post /\
+  (Perf.trim_steps l num = pre \/
+   exists v w post', post = Perf.shift v :: post' /\ 0 < w < v /\
+                     Perf.trim_steps l num = pre ++ [Perf.shift w]).
+Proof. exact PerfP.trim_steps_shape. Qed.
+Print Assumptions C17_performance_trim_steps_shape.
 
 (** set_length(n): exactly n steps from the same start; the assert holds *)
 Theorem C17_performance_set_length_exact : forall (s : Perf.st) n,
